@@ -1,7 +1,7 @@
 /-
   An accepted header is at least the pre-header, the offset field and the checksum long.
 -/
-import Bita.Model.Archive
+import Bita.Proofs.TryInitLemmas
 
 namespace Bita.Proofs
 open Bita Bita.Proto
@@ -9,16 +9,9 @@ open Bita Bita.Proto
 theorem tryInit_headerSize_ge (H : Bytes → Bytes) (features : List Nat) (read : Nat → Nat → Option Bytes)
     (a : Archive) (h : tryInit H features read = .ok a) :
     Gen.preHeaderSize + 72 ≤ a.headerSize := by
-  have hfact : Gen.chunkEndOffsetChecked = true := by decide
-  unfold tryInit at h
-  simp -zeta only [hfact, ↓reduceIte] at h
-  iterate 4 (split at h <;> try (cases h; done))
-  dsimp only at h
-  iterate 3 (split at h <;> try (cases h; done))
-  rename_i hlen
-  iterate 9 (split at h <;> try (cases h; done))
-  cases h
-  simp only [Nat.not_lt] at hlen ⊢
+  obtain ⟨pre, rest, dict, params, cc, compr, cfg, w, rfl⟩ := tryInit_ok_inv h
+  have := w.hhl
+  simp only [tiArchive]
   omega
 
 end Bita.Proofs
